@@ -168,9 +168,26 @@ func (k *keyManagementContext) generateNewDHKeyPair(randomness io.Reader) error 
 	return nil
 }
 
+func (h *counterHistory) forgetCounters(retired func(*keyPairCounter) bool) {
+	kept := h.counters[:0]
+	for _, c := range h.counters {
+		if retired(c) {
+			c.wipe()
+		} else {
+			kept = append(kept, c)
+		}
+	}
+	for i := len(kept); i < len(h.counters); i++ {
+		h.counters[i] = nil
+	}
+	h.counters = kept
+}
+
 func (k *keyManagementContext) revealMACKeysForOurPreviousKeyID() {
 	keys := k.macKeyHistory.forgetMACKeysForOurKey(k.ourKeyID - 1)
 	k.oldMACKeys = append(k.oldMACKeys, keys...)
+	retiredID := k.ourKeyID - 1
+	k.counterHistory.forgetCounters(func(c *keyPairCounter) bool { return c.ourKeyID == retiredID })
 }
 
 func (c *Conversation) rotateKeys(dataMessage dataMsg) error {
@@ -193,6 +210,8 @@ func (k *keyManagementContext) rotateOurKeys(recipientKeyID uint32, randomness i
 func (k *keyManagementContext) revealMACKeysForTheirPreviousKeyID() {
 	keys := k.macKeyHistory.forgetMACKeysForTheirKey(k.theirKeyID - 1)
 	k.oldMACKeys = append(k.oldMACKeys, keys...)
+	retiredID := k.theirKeyID - 1
+	k.counterHistory.forgetCounters(func(c *keyPairCounter) bool { return c.theirKeyID == retiredID })
 }
 
 func (k *keyManagementContext) rotateTheirKey(senderKeyID uint32, pubDHKey *big.Int) {
